@@ -313,6 +313,15 @@ theorem source_candidates (s : RawSource) :
   simp only [EnumDef.candidates, RawSource.declared, RawEnum.declared, List.filter_map]
   rfl
 
+theorem source_mem (s : RawSource) (r : RawVariant) (hr : r ∈ s.variants) : r.declared ∈ s.declared.variants := by
+  simp only [RawSource.declared, RawEnum.declared]
+  exact List.mem_map.mpr ⟨r, hr, rfl⟩
+
+theorem source_nodup (s : RawSource) (hid : (s.variants.map (·.ident)).Nodup) :
+    (s.declared.variants.map (·.ident)).Nodup := by rw [source_idents]; exact hid
+
+theorem declared_disabled (r : RawVariant) : r.declared.disabled = r.isDisabled := rfl
+
 /-! ### non-vacuity -/
 
 def exampleSource : RawSource :=
